@@ -412,6 +412,20 @@ def pauliSupportOK (k : Nat) (p : PauliB) : Bool :=
   (List.range (2 ^ k)).all fun r => (List.range (2 ^ k)).all fun c =>
     (r == (c ^^^ xIndex k p.v)) || (pauliEnt k p r c == 0)
 
+/-- the factor of an `n`-qubit Pauli on the qubits `qs` (phase kept) -/
+def restrictP (n : Nat) (qs : List Nat) (p : PauliB) : PauliB :=
+  let index := qs ++ qs.map (· + n)
+  ⟨p.s0, p.s1, (List.range index.length).foldl
+    (fun acc a => if p.v.testBit (index.getD a 0) then acc ^^^ 2 ^ a else acc) 0⟩
+
+/-- `p` with its factor on the qubits `qs` (and its phase) replaced by the local Pauli `q` -/
+def liftP (n : Nat) (qs : List Nat) (p q : PauliB) : PauliB :=
+  let index := qs ++ qs.map (· + n)
+  let mask := index.foldl (fun acc i => acc ||| 2 ^ i) 0
+  let placed := (List.range index.length).foldl
+    (fun acc a => if q.v.testBit a then acc ^^^ 2 ^ (index.getD a 0) else acc) 0
+  ⟨q.s0, q.s1, p.v ^^^ (p.v &&& mask) ^^^ placed⟩
+
 /-- all placements of a gate of the given arity on `n` qubits -/
 def placements (n arity : Nat) : List (List Nat) :=
   if arity = 1 then (List.range n).map fun q => [q]
